@@ -116,24 +116,37 @@ HARNESS_FLAGS = {
                   "-D_GLIBCXX_DEBUG", "-D" + GUARD, "-fno-access-control"],
     "sim_driver": ["-std=c++17", "-O1", "-g", "-fsanitize=address,undefined", "-fno-sanitize-recover=all",
                    "-D_GLIBCXX_DEBUG", "-D" + GUARD, "-DASIO_STANDALONE", "-fno-access-control", "-pthread"],
+    # the real adaptors on loopback (validation of the adaptor contract; thorough tiers and C12 / C20)
+    "net_driver": ["-std=c++17", "-O1", "-g", "-D" + GUARD, "-DASIO_STANDALONE", "-pthread"],
+    "net_driver_tls": ["-std=c++17", "-O1", "-g", "-D" + GUARD, "-DASIO_STANDALONE", "-DNET_TLS", "-pthread"],
+    "net_driver_pool": ["-std=c++17", "-O1", "-g", "-D" + GUARD, "-DASIO_STANDALONE", "-DHTTP_THREAD_SAFE", "-pthread"],
+    "net_driver_tsan": ["-std=c++17", "-O1", "-g", "-fsanitize=thread", "-D" + GUARD, "-DASIO_STANDALONE",
+                        "-DHTTP_THREAD_SAFE", "-pthread"],
+    "map_mt_driver": ["-std=c++17", "-O1", "-g", "-D" + GUARD, "-pthread"],
+    "map_mt_driver_tsan": ["-std=c++17", "-O1", "-g", "-fsanitize=thread", "-D" + GUARD, "-pthread"],
 }
+HARNESS_SRC = {"net_driver_tls": "net_driver", "net_driver_pool": "net_driver", "net_driver_tsan": "net_driver",
+               "map_mt_driver_tsan": "map_mt_driver"}
+HARNESS_LIBS = {"net_driver_tls": ["-lssl", "-lcrypto"]}
+HARNESS_CXX = {"net_driver_tsan": "clang++-14", "map_mt_driver_tsan": "clang++-14"}
 
 
 def build_harness(name, log):
     """Compile harness/<name>.cpp against the CURRENT /repo/include; cached by content hash."""
-    src = os.path.join(VERIF, "harness", name + ".cpp")
+    src = os.path.join(VERIF, "harness", HARNESS_SRC.get(name, name) + ".cpp")
     extra = [src] + [os.path.join(VERIF, "harness", f) for f in sorted(os.listdir(os.path.join(VERIF, "harness")))
                      if f.endswith(".hpp")]
     flags = HARNESS_FLAGS[name]
-    key = repo_hash(extra) + hashlib.sha256(" ".join(flags).encode()).hexdigest()[:8]
+    cxx = HARNESS_CXX.get(name, "g++")
+    key = repo_hash(extra) + hashlib.sha256((cxx + " ".join(flags)).encode()).hexdigest()[:8]
     out = os.path.join(CACHE, "%s-%s" % (name, key))
     lk = _lock()
     try:
         if os.path.exists(out):
             return out
         t0 = time.time()
-        cmd = ["g++"] + flags + ["-I" + os.path.join(REPO, "include"), "-I" + os.path.join(VERIF, "harness"),
-                                 src, "-o", out + ".tmp"]
+        cmd = [cxx] + flags + ["-I" + os.path.join(REPO, "include"), "-I" + os.path.join(VERIF, "harness"),
+                               src, "-o", out + ".tmp"] + HARNESS_LIBS.get(name, [])
         r = subprocess.run(cmd, capture_output=True, text=True)
         if r.returncode != 0:
             raise BuildError("harness %s does not compile against the current tree:\n%s" % (name, r.stderr[-3000:]))
@@ -141,7 +154,8 @@ def build_harness(name, log):
         log("built %s in %.1fs" % (name, time.time() - t0))
         # keep the cache small: drop older binaries of this harness
         for f in os.listdir(CACHE):
-            if f.startswith(name + "-") and os.path.join(CACHE, f) != out and not f.endswith(".tmp"):
+            if f.startswith(name + "-") and os.path.join(CACHE, f) != out and not f.endswith(".tmp") \
+                    and re.match(r"^%s-[0-9a-f]{28}$" % re.escape(name), f):
                 try:
                     os.remove(os.path.join(CACHE, f))
                 except OSError:
@@ -186,17 +200,39 @@ def strip_comments(text):
     return text
 
 
-def audit_sources():
-    """grep the Lean sources for forbidden constructs (outside comments)."""
+def import_closure(modules):
+    """the project's own modules (ViaModel.*, ViaProofs.*) that the given modules import, transitively"""
+    seen = []
+    todo = list(modules)
+    while todo:
+        m = todo.pop()
+        if m in seen or not (m.startswith("ViaModel") or m.startswith("ViaProofs")):
+            continue
+        p = os.path.join(LEAN_DIR, m.replace(".", "/") + ".lean")
+        if not os.path.exists(p):
+            continue
+        seen.append(m)
+        for line in open(p):
+            mm = re.match(r"\s*import\s+(\S+)", line)
+            if mm:
+                todo.append(mm.group(1))
+    return seen
+
+
+def audit_sources(modules=None):
+    """grep the Lean sources the given modules depend on for forbidden constructs (outside comments)."""
     bad = []
-    for d in ("ViaModel", "ViaProofs"):
-        for root, _, files in os.walk(os.path.join(LEAN_DIR, d)):
-            for fn in files:
-                if fn.endswith(".lean"):
-                    p = os.path.join(root, fn)
-                    m = FORBIDDEN.search(strip_comments(open(p).read()))
-                    if m:
-                        bad.append("%s: %s" % (p, m.group(0).strip()))
+    if modules is None:
+        files = []
+        for d in ("ViaModel", "ViaProofs"):
+            for root, _, fns in os.walk(os.path.join(LEAN_DIR, d)):
+                files += [os.path.join(root, fn) for fn in fns if fn.endswith(".lean")]
+    else:
+        files = [os.path.join(LEAN_DIR, m.replace(".", "/") + ".lean") for m in import_closure(modules)]
+    for p in sorted(files):
+        m = FORBIDDEN.search(strip_comments(open(p).read()))
+        if m:
+            bad.append("%s: %s" % (p, m.group(0).strip()))
     return bad
 
 
